@@ -323,19 +323,26 @@ class InterfaceBase(NameAndModuleComparisonMixin, SpecificationBasePy):
         return self._v_cached_hash
 
     def __eq__(self, other):
-        c = self._compare(other)
-        if c is NotImplemented:
-            return c
-        return c == 0
+        if other is self:
+            return True
+        if other is None:
+            return False
+        try:
+            key = (other.__name__, other.__module__)
+        except AttributeError:
+            return NotImplemented
+        return (self.__name__, self.__module__) == key
 
     def __ne__(self, other):
         if other is self:
             return False
-
-        c = self._compare(other)
-        if c is NotImplemented:
-            return c
-        return c != 0
+        if other is None:
+            return True
+        try:
+            key = (other.__name__, other.__module__)
+        except AttributeError:
+            return NotImplemented
+        return (self.__name__, self.__module__) != key
 
 
 adapter_hooks = _use_c_impl([], 'adapter_hooks')
